@@ -281,6 +281,10 @@ func (t *tokenStream) parseLicenseRef() *node {
 	ref := referenceNodePartial{documentRef: "", hasDocumentRef: false, licenseRef: ""}
 
 	token := t.peek()
+	if token == nil {
+		// no more tokens, so no license reference
+		return nil
+	}
 	if token.role == documentRefToken {
 		ref.documentRef = token.value
 		ref.hasDocumentRef = true
@@ -294,6 +298,13 @@ func (t *tokenStream) parseLicenseRef() *node {
 	}
 
 	token = t.peek()
+	if token == nil {
+		// no more tokens; only an error if DocumentRef and : were the previous tokens
+		if ref.hasDocumentRef {
+			t.err = errors.New("expected 'LicenseRef-...' after 'DocumentRef-...'")
+		}
+		return nil
+	}
 	if token.role != licenseRefToken && ref.hasDocumentRef {
 		t.err = errors.New("expected 'LicenseRef-...' after 'DocumentRef-...'")
 		return nil
@@ -315,6 +326,10 @@ func (t *tokenStream) parseLicenseRef() *node {
 // an error is returned.  Advances the index if a valid license is found.
 func (t *tokenStream) parseLicense() *node {
 	token := t.peek()
+	if token == nil {
+		// no more tokens, so no license
+		return nil
+	}
 	if token.role != licenseToken {
 		return nil
 	}
@@ -361,6 +376,10 @@ func (t *tokenStream) parseLicense() *node {
 // Advances the index if the operator is found.
 func (t *tokenStream) parseOperator(operator string) *string {
 	token := t.peek()
+	if token == nil {
+		// no more tokens, so requested operator not found
+		return nil
+	}
 	if token.role == operatorToken && token.value == operator {
 		t.next()
 		return &(token.value)
@@ -380,6 +399,10 @@ func (t *tokenStream) parseWith() *string {
 	}
 
 	token := t.peek()
+	if token == nil {
+		t.err = errors.New("expected exception after 'WITH'")
+		return nil
+	}
 	if token.role != exceptionToken {
 		t.err = errors.New("expected exception after 'WITH'")
 		return nil
